@@ -27,16 +27,19 @@ TEXT = {
               "unmodified Simulator (EDF/FIFO/LSF and the contract-abiding ChaosPolicy); at every event boundary "
               "an integer shadow ledger driven by the observed Worker.place_task/remove_task/load/evict calls is "
               "compared with each worker's capacity and with the worker's own getters. Right level because "
-              "oversubscription only shows at particular instants of particular runs.",
+              "oversubscription only shows at particular instants of particular runs. ChaosPolicy also issues batched "
+              "placements (BatchStrategy objects joined late and re-used after the batch drained).",
               "deterministic simulation: shadow-ledger invariant at every event boundary, chaos placements, runtime overrun"),
     "C02": _t("Seeded exploration of whole runs; every observed Task.start is checked against the task's release "
               "and the completion of its predecessors taken from the world spec (join: one completed branch), "
-              "at-most-once start/finish, and the same facts are re-derived from the CSV rows.",
+              "at-most-once start/finish, and the same facts are re-derived from the CSV rows. Includes conditionals "
+              "whose branch head has an ordinary side-input predecessor.",
               "deterministic simulation: online start/finish monitor + trace re-derivation, plan-ahead chaos decisions, runtime overrun"),
     "C03": _t("Seeded exploration with tie-heavy worlds; monitors check monotone clock, event time order, "
               "finish = start + runtime (variance: within the documented rounded interval), resources held until "
               "the finish, start >= chosen time, and start exactly at the chosen time when the shadow state says "
-              "predecessors are done and the pool can hold the strategy.",
+              "predecessors are done and the pool can hold the strategy, also when the only obstacles are tasks whose "
+              "TASK_FINISHED is due at the same instant.",
               "deterministic simulation: clock/runtime/start-time invariants over same-microsecond event interleavings"),
     "C05": _t("Seeded exploration under the bundled policies with a step-based watchdog (livelock / Zeno "
               "detection without wall clocks) and post-run liveness oracles: SIMULATOR_END exists and is not "
@@ -66,21 +69,24 @@ TEXT = {
               "schedule() call is wrapped: returns normally, <=1 decision per task, only offered / own scheduled tasks, "
               "every offered unscheduled task answered, existing pool/worker, own strategy, time >= now and release, "
               "joint feasibility on a reference timeline per worker (exact small search when no worker is named), and "
-              "an identical deep snapshot of cluster and task state before/after. Z3 and Clockwork are not covered yet.",
+              "an identical deep snapshot of cluster and task state before/after. Clockwork runs included; Z3 is shadow-probed "
+              "(invoked on live states of greedy-driven runs, answer checked and discarded).",
               "deterministic simulation: per-invocation contract + reference-timeline oracle on states reached by real runs, solver-choice perturbation, runtime overrun"),
     "C11": _t("Seeded exploration of ILP and TetriSched-Gurobi runs with lookahead / release_taskgraphs; each decision "
               "is checked: a child is placed only with its co-decided parents, not before parent start + chosen "
               "runtime, not before a running/scheduled parent's expected finish. 'Every feasible solution' is sampled "
-              "by re-solving the policy's own model under seeded random objectives (fault F6). Z3 is not covered.",
+              "by re-solving the policy's own model under seeded random objectives (fault F6). Z3 through shadow probes.",
               "deterministic simulation: per-invocation precedence oracle over solver-choice perturbation"),
     "C12": _t("Seeded exploration with deadlines generated around the boundary (past / exactly tight / loose): hopeless "
               "tasks are cancelled (EDF, FIFO, TetriSched-CPLEX) or left unplaced (ILP task-by-task, TetriSched-Gurobi) "
               "and never placed; planners never choose start + runtime > deadline, also on the F6 alternative "
-              "solutions. Clockwork is not covered yet.",
+              "solutions; Clockwork included; post-run: with exact runtimes every task that started at its planned time "
+              "completes by its deadline.",
               "deterministic simulation: per-invocation admission/deadline oracle over solver-choice perturbation"),
     "C13": _t("Seeded exploration of EDF/FIFO/LSF runs on single-worker pools; at each real invocation a "
               "first-principles ledger replays the placed tasks of higher-or-equal priority and requires that an "
-              "unplaced task fits nowhere.",
+              "unplaced task fits nowhere. The preemptive mode of EDF/LSF (partially executed tasks, where remaining time "
+              "differs from the runtime) is shadow-probed on live states.",
               "deterministic simulation: per-invocation priority oracle on states reached by real runs"),
     "C14": _t("Modest: on tiny instances reached inside real runs (<=4 offered tasks, <=2 workers) each unplaced "
               "offered task of a TetriSched plan is tested against every (slot, worker, strategy) of the planner's own "
